@@ -171,7 +171,14 @@ def _explore(out, tier, seed, facts, replay):
                 continue
             rng.shuffle(rows)
             bad_at = rng.randrange(1, len(rows))
-            lines = ["unixtime leadtime location lat lon altitude obs fcst"]
+            # probabilistic columns in a shuffled header order: each stored column is the one written under ITS level / threshold
+            qlev = rng.sample([0.1, 0.25, 0.5, 0.75, 0.9], rng.choice([0, 2, 5, 5]))
+            thr = rng.sample([-5.0, 0.0, 0.5, 2.5, 10.0, 20.0], rng.choice([0, 2, 4, 6]))
+            pcols = ["q%g" % q for q in qlev] + ["p%g" % t_ for t_ in thr]
+            rng.shuffle(pcols)
+            def pval(col, t, l, i):
+                return ((hash((col, t, l, i)) if False else (int(float(col[1:]) * 1000) * 7 + t // 86400 * 3 + l + i)) % 64) / 64.0
+            lines = [" ".join(["unixtime leadtime location lat lon altitude obs fcst"] + pcols)]
             seen = set()
             conflict = None
             for n_, (t, l, i, o, f) in enumerate(rows):
@@ -179,7 +186,7 @@ def _explore(out, tier, seed, facts, replay):
                 if n_ >= bad_at and conflict is None and i in seen:
                     la, conflict = la + 1.5, (n_, i)
                 seen.add(i)
-                lines.append("%d %d %d %r %r %r %r %r" % (t, l, i, la, lo, el, o, f))
+                lines.append(" ".join(["%d %d %d %r %r %r %r %r" % (t, l, i, la, lo, el, o, f)] + ["%r" % pval(c_, t, l, i) for c_ in pcols]))
             fn = os.path.join(tmp, "c%d.txt" % rd)
             open(fn, "w").write("\n".join(lines) + "\n")
             try:
@@ -198,6 +205,22 @@ def _explore(out, tier, seed, facts, replay):
                     continue
                 if not (go == o and gf == f):
                     wrong.append((t, l, i, "obs %r fcst %r in the file, %r %r stored" % (o, f, float(go), float(gf))))
+            wrongp = []
+            for kind, levels, stored in (("q", [float(x) for x in inp.quantiles], inp.quantile_scores), ("p", [float(x) for x in inp.thresholds], inp.threshold_scores)):
+                want_levels = qlev if kind == "q" else thr
+                if sorted(levels) != sorted(want_levels):
+                    wrongp.append("%s levels read as %r, the header has %r" % (kind, levels, want_levels))
+                    continue
+                for k_, lev in enumerate(levels):
+                    for (t, l, i, o, f) in rows:
+                        g_ = float(stored[tl.index(float(t)), ll.index(float(l)), il.index(i), k_])
+                        w_ = pval("%s%g" % (kind, lev), t, l, i)
+                        if g_ != w_:
+                            wrongp.append("column %s%g at (%d, %d, %d): the file has %r, stored %r" % (kind, lev, t, l, i, w_, g_))
+                            break
+            if wrongp and not wrong:
+                out.violation("text-probabilistic-column-not-under-its-level", "text file with header %r: %d probabilistic columns are not stored under their own level / threshold; first: %s"
+                              % (lines[0], len(wrongp), wrongp[0]), {"file": "\n".join(lines)})
             if wrong:
                 out.violation("text-value-not-at-its-coordinate", "text file with rows interleaved by location and one conflicting metadata row (row %r): %d values are not stored at their "
                               "(time, lead time, location id); first %r" % (conflict, len(wrong), wrong[0]), {"file": "\n".join(lines)})
